@@ -12,6 +12,11 @@ Driver requests of property C07 (whole runs and phase tables).
               `OK E <outcome>`
   phasetrace <tool> <hasSeed> <seed> <parseDraws> <buildDraws> <transDraws> <shuffleDraws>
       answer: the generator events an observer sees (P( seed other draws )P …)
+  seededgraph <which> <hasSeed> <seed> <args…> <pre draws> <post draws>      (draw format of Driver/GraphBuild)
+      which: 0 bipartite_random_left_regular l r d | 1 bipartite_random_m_edges L R m | 2 bipartite_random L R pn pd
+             3 bipartite_random_regular l r d fuel | 4 add_random_missing_edges (simple G) m
+             5 add_random_missing_edges (bipartite G) m | 6 split_random_edges (simple G) k
+      `pre` = the state the generator is in, `post` = the state random.seed(seed) installs
   c07_seeded      names of the library generators with a `seed` parameter (generated table)
   c07_tables      summary of the generated phase tables (tool, seed option, soundness, variant)
 -/
@@ -19,6 +24,7 @@ import CnfgenModel.Driver.Util
 import CnfgenModel.Driver.GraphBuild
 import CnfgenModel.Driver.Rand
 import CnfgenModel.Cli.Run
+import CnfgenModel.Rand.Seeded
 namespace Cnfgen.Driver.CliRun
 open Cnfgen Cnfgen.Driver Cnfgen.Cli Cnfgen.CliRun Cnfgen.GenPh
 
@@ -79,6 +85,32 @@ def handle (opname : String) (a : Args) : Option String :=
         let c : RunCmd := ⟨if has then some s else none, p, b, t, sh, false⟩
         pure (ok (" ".intercalate ((traceOf tab c).map fmtTok)))
       | none => pure "ERR NoSuchTool") a
+  | "seededgraph" => run (do
+      let which ← int; let has ← bool; let s ← int
+      let seed : Option Int := if has then some s else none
+      match which with
+      | 0 => do
+        let l ← int; let r ← int; let d ← int; let pre ← GraphBuild.draws; let post ← GraphBuild.draws
+        pure (GraphBuild.fmtOut GraphBuild.fmtBip (GRand.bipartiteRandomLeftRegular (fun _ => post) l r d seed pre))
+      | 1 => do
+        let l ← int; let r ← int; let m ← int; let pre ← GraphBuild.draws; let post ← GraphBuild.draws
+        pure (GraphBuild.fmtOut GraphBuild.fmtBip (GRand.bipartiteRandomMEdges (fun _ => post) l r m seed pre))
+      | 2 => do
+        let l ← int; let r ← int; let pn ← int; let pd ← nat; let pre ← GraphBuild.draws; let post ← GraphBuild.draws
+        pure (GraphBuild.fmtOut GraphBuild.fmtBip (GRand.bipartiteRandom (fun _ => post) l r pn pd seed pre))
+      | 3 => do
+        let l ← int; let r ← int; let d ← int; let fuel ← nat; let pre ← GraphBuild.draws; let post ← GraphBuild.draws
+        pure (GraphBuild.fmtOut GraphBuild.fmtBip (GRand.bipartiteRandomRegular (fun _ => post) l r d fuel seed pre))
+      | 4 => do
+        let G ← GraphBuild.okG simpleG; let m ← int; let pre ← GraphBuild.draws; let post ← GraphBuild.draws
+        pure (GraphBuild.fmtOut GraphBuild.fmtSimple (GRand.addRandomMissingEdgesSimple (fun _ => post) G m seed pre))
+      | 5 => do
+        let G ← GraphBuild.okG bipG; let m ← int; let pre ← GraphBuild.draws; let post ← GraphBuild.draws
+        pure (GraphBuild.fmtOut GraphBuild.fmtBip (GRand.addRandomMissingEdgesBip (fun _ => post) G m seed pre))
+      | 6 => do
+        let G ← GraphBuild.okG simpleG; let k ← int; let pre ← GraphBuild.draws; let post ← GraphBuild.draws
+        pure (GraphBuild.fmtOut GraphBuild.fmtSimple (GRand.splitRandomEdges (fun _ => post) G k seed pre))
+      | _ => failure) a
   | "c07_seeded" => run (do
       pure (ok (" ".intercalate ((seededGenerators.map (fun s => s.fn)).mergeSort (fun x y => decide (x ≤ y)))))) a
   | "c07_tables" => run (do
